@@ -342,6 +342,24 @@ class Walker:
             out.append(ex)
         return out
 
+    def run_block(self, func, stmts, cls=None, state=None):
+        """All exits of a statement list of `func` (e.g. one loop body),
+        including break / continue exits."""
+        st = state or State()
+        cls = cls or func.cls
+        fr = Frame(func, cls, 0)
+        st.frames.append(fr)
+        a = func.node.args
+        for arg in a.posonlyargs + a.args + a.kwonlyargs:
+            fr.env[arg.arg] = SymVal(ast.Name(arg.arg, ast.Load()),
+                                     tag='param')
+        self.d.init_state(st, func, cls)
+        out = []
+        for ex in self.block(list(stmts), st):
+            self.paths += 1
+            out.append(ex)
+        return out
+
     # ------------------------------------------------------------------
     def const_of(self, st, name):
         fr = st.frame
